@@ -329,6 +329,15 @@ def gen_anderson(out):
     comp = [s[1] for s in ss if s[0] == 'expr' and is_call(s[1], 'anderson', 'compute')]
     if len(comp) != 1 or len(comp[0][2]) != 3:
         raise TranslationError(f'{W}::apply: expected exactly one `anderson.compute(g, r, q)`')
+    # statement order: the model (`Anderson.apply`) advances the accelerator first and unconditionally, then
+    # runs the translated body on the vector `compute` wrote — so the call must be the first statement and the
+    # only `return` the last one
+    kinds = ['compute' if (s_[0] == 'expr' and is_call(s_[1], 'anderson', 'compute')) else s_[0] for s_ in ss]
+    if not (kinds and kinds[0] == 'compute' and kinds[-1] == 'return' and kinds.count('return') == 1
+            and all(k == 'expr' for k in kinds[1:-1])):
+        raise TranslationError(f'{W}::apply: statement order changed (expected `anderson.compute(…)` first, '
+                               f'plain statements, one final return): {kinds}')
+    out.regions[f'{W}.apply.order'] = {'file': F_AN, 'hash': cp.ast_hash(kinds)}
     ca = [em.expr(x, 'V')[0] for x in comp[0][2][:2]]
     out.add('andersonDirComputeArgs',
             f'/-- {F_AN} :: {W}::apply — the (g, r) handed to `anderson.compute(g, r, ·)` -/\n'
@@ -597,6 +606,7 @@ def gen_structured(out):
     want_order = [('decl', 'n'), ('decl', 'nJ'), ('decl', 'J'), 'if', 'if', 'expr', 'if', ('decl', 'success'), 'if']
     if order != want_order:
         raise TranslationError(f'{W}::apply: statement order changed: {order}')
+    out.regions[f'{W}.apply.order'] = {'file': F_ST, 'hash': cp.ast_hash(order)}
 
     # ---- the switch
     arms = re.split(r'(case\s+[\w:]+\s*:|default\s*:)', sw)
